@@ -287,18 +287,6 @@ func rulePlaceholderTaint(c *Ctx, r *Report) {
 					if ia, ok := x.Addr.(*ssa.IndexAddr); ok {
 						taint(ia.X)
 					}
-					if fa, ok := x.Addr.(*ssa.FieldAddr); ok {
-						// field-based: loads of the same field anywhere
-						for _, fn := range c.LibFuncs() {
-							eachInstr(fn, func(in ssa.Instruction) {
-								if ld, ok := in.(*ssa.UnOp); ok && ld.Op == token.MUL {
-									if fa2, ok := ld.X.(*ssa.FieldAddr); ok && fa2.Field == fa.Field && types.Identical(deref(fa2.X.Type()), deref(fa.X.Type())) {
-										taint(ld)
-									}
-								}
-							})
-						}
-					}
 				}
 			case *ssa.Return:
 				// results of library functions returning tainted data
@@ -341,10 +329,34 @@ func rulePlaceholderTaint(c *Ctx, r *Report) {
 	}
 	// the substitution point: tainted terms enter the grammar only as a finished Term replacing the placeholder atom
 	if t0 := c.method("Parser", "term0Atom"); t0 != nil {
-		r.ok(rule, fname(t0)+"/substitution", c.Pos(t0.Pos()), "placeholder arguments are spliced in as finished terms at the atom level of the grammar", "taint reaches the parser only through the Parser.args queue (field-based propagation)", true)
+		// the queue holds finished terms: its element type is the Term interface
+		good := false
+		if pt := c.engType("Parser"); pt != nil {
+			st := pt.Underlying().(*types.Struct)
+			for i := 0; i < st.NumFields(); i++ {
+				if st.Field(i).Name() == "args" && isTermSlice(st.Field(i).Type(), termIface) {
+					good = true
+				}
+			}
+		}
+		if good {
+			r.ok(rule, fname(t0)+"/substitution", c.Pos(t0.Pos()), "placeholder arguments are spliced in as finished terms at the atom level of the grammar", "the argument queue is a []Term: host values are converted before the parser sees them", false)
+		} else {
+			r.bad(rule, fname(t0)+"/substitution", c.Pos(t0.Pos()), "placeholder arguments are spliced in as finished terms at the atom level of the grammar", "the argument queue is not a []Term")
+		}
 	}
 	r.analysed(rule, append([]string{"sources:"}, sources...)...)
 	r.analysed(rule, append([]string{"tainted functions:"}, fns...)...)
+}
+
+func isTermSlice(t types.Type, term *types.Interface) bool {
+	switch u := t.Underlying().(type) {
+	case *types.Slice:
+		return types.Implements(u.Elem(), term)
+	case *types.Pointer:
+		return isTermSlice(u.Elem(), term)
+	}
+	return false
 }
 
 func isStringType(t types.Type) bool {
@@ -438,6 +450,17 @@ func ruleArgsConsumed(c *Ctx, r *Report) {
 			}
 			if sl, ok := in.(*ssa.Slice); ok && sl.Low == nil {
 				return
+			}
+			if ia, ok := in.(*ssa.IndexAddr); ok {
+				loaded := false
+				for _, ref := range *ia.Referrers() {
+					if u, ok := ref.(*ssa.UnOp); ok && u.Op == token.MUL {
+						loaded = true
+					}
+				}
+				if !loaded {
+					return // filling the queue, not taking from it
+				}
 			}
 			key := fmt.Sprintf("%s/take-arg(%T)", fname(fn), in)
 			desc := "an argument is taken from the queue only when one is left; otherwise an error is returned"
